@@ -9,18 +9,30 @@ from lib.vlib import *
 META = {
     "property_id": "C10",
     "technique": "Coq proof over a Gallina model of the MVS work-list exploration (pgavlin/mvs buildList + Graph) and "
-                 "dawn's Reqs/BuildList + correspondence on generated universes through the package's own fake repository",
+                 "dawn's Reqs/BuildList and of the resolver's download cache (FetchProject: stage, rename, tolerate 'exists') "
+                 "as a transition system over interleaved calls, faults and kills + correspondence on generated universes "
+                 "through the package's own fake repository and through multi-repository layouts with fault injection",
     "level_text": "Theorems (Coq, unbounded): for every processing order of the work list, every finite universe (cycles, "
                   "diamonds, several majors) and every root requirement list, the model's build list is exactly the set of "
                   "reachable paths, each once, at the maximum version over the reachable requirements, sorted by path "
                   "(build_list_spec), an unresolvable reachable requirement is an error under every order, and the answer "
                   "is independent of the processing order and of any permutation of the root requirements "
-                  "(build_list_order_independent); the explicit fuel |nodes|+1 always suffices. The model is tied to "
+                  "(build_list_order_independent); the explicit fuel |nodes|+1 always suffices. Download cache: in every world "
+                  "reachable by interleaved resolveProject calls of any number of resolvers, failing operations and kills, every "
+                  "directory in the cache is a complete download (cache_entries_complete), a call without a failed operation "
+                  "returns the project's own configuration (resolve_via_cache), and a build list computed from such answers is "
+                  "the build list of the universe (build_list_cache_independent). The model is tied to "
                   "get.go/reqs.go/resolver.go and the library by running both on generated universes "
-                  "(cold cache, warm resolver, warm disk cache, shared cache, shuffled declaration order).",
+                  "(cold cache, warm resolver, warm disk cache, shared cache, shuffled declaration order) and, for the cache "
+                  "model, on multi-repository layouts with every delivery point of a download failing once or parked while a "
+                  "second resolver runs / the cache directory is copied (the state a kill would leave).",
     "level_note": "Trusted: Coq kernel; the python rendering of version strings into canonical semver records; the "
-                  "model of par.Work as an arbitrary sequential pick order (g.Require runs under the library's mutex); cache "
-                  "independence is established by the correspondence, not by a theorem (the model has no cache). "
+                  "model of par.Work as an arbitrary sequential pick order (g.Require runs under the library's mutex); the cache "
+                  "theorems assume os.Rename of a directory is atomic, that a complete download holds the project's configuration "
+                  "(deliver_sound) and that two requested project versions sharing a cache directory resolve alike (key_sound: "
+                  "fails for a requirement path without the major suffix of its version, the recorded observation of DESIGN 5; "
+                  "such paths are not generated); a copy-instead-of-rename publication could only be seen by parking inside the "
+                  "resolver's own copy, which the harness cannot do. "
                   "Requirement versions are canonical (LoadConfigBytes enforces it); build metadata is out of the model.",
     "design_ref": "DESIGN.md §6 C10",
 }
